@@ -5,6 +5,7 @@ instrumented callables, an ordinary-list reference with provenance (the property
 oracle, independent of the Lean model), and the Lean model (`Core/LazyList.lean`).
 """
 import json
+import random
 
 import numpy as np
 
@@ -350,6 +351,35 @@ def special_cases(ctx):
     ctx.case(("special", "init_from_iterable"), nontrivial=True)
 
 
+def subprograms(p):
+    out = [p]
+    for x in p[1:]:
+        if isinstance(x, tuple) and x and isinstance(x[0], str) and x[0] in ("B", "M", "E", "SI", "SS", "R", "A", "AP", "C"):
+            out += subprograms(x)
+    return out
+
+
+def shrink(ctx):
+    """replace each recorded failing program by its smallest failing subprogram (delta debugging over the tree)"""
+    out = []
+    for site, pattern, text, rp in ctx.failures:
+        tree = rp.get("program_tree")
+        best = None
+        if tree:
+            for sub in sorted(subprograms(eval(tree)), key=lambda q: len(toks(q))):
+                c = ctx.scratch()
+                run_program(c, sub, random.Random(0))
+                hit = [f for f in c.failures if f[1] == pattern]
+                if hit:
+                    best = hit[0]
+                    break
+        if best is not None:
+            rp = dict(best[3], minimised_from=rp.get("program"))
+            text = best[2]
+        out.append((site, pattern, text, rp))
+    ctx.failures[:] = out
+
+
 def search(ctx):
     """directed search after a broken tie: many more programs through the oracle only"""
     rng = ctx.rng
@@ -386,7 +416,8 @@ def run(ctx):
             continue  # oracle already failed on this case
         if model[cid] != obs:
             ctx.mismatch("all", "model %r vs implementation %r" % (model[cid][:200], obs[:200]),
-                         {"program": toks(progs[cid])})
+                         {"program": toks(progs[cid]), "program_tree": repr(progs[cid])})
+    shrink(ctx)
     return ctx.finish(search)
 
 
